@@ -25,7 +25,7 @@ import re
 from opsim import seams
 from opsim.core import CLOCK, EPOCH, HarnessError, derive
 from opsim.sched import Sched, SimLock
-from opsim.util import call, weighted
+from opsim.util import call, weighted, quiet
 
 from operon_ai.core.types import Signal
 from operon_ai.organelles.membrane import Membrane, ThreatSignature, ThreatLevel as ML
@@ -500,7 +500,7 @@ def _run_seq(plan, k):
         mem.append(Membrane(signatures=[ThreatSignature(CUSTOM[i][0], ML(l), f"custom {i}", CUSTOM[i][1])
                                         for i, l in c["custom"]] or None,
                             threshold=ML(c["threshold"]), enable_adaptive=c["adaptive"], rate_limit=c["rate"],
-                            on_threat=lambda r: threats.append(r.allowed), silent=True))
+                            on_threat=lambda r: threats.append(r.allowed), silent=quiet()))
         mm.append(MembraneModel(c))
     ic = cfg["innate"]
     inflamed = []
@@ -508,7 +508,7 @@ def _run_seq(plan, k):
                                               is_regex=CUSTOM[i][1], severity=s) for i, s in ic["patterns"]] or None,
                          validators=[make_validator(v) for v in ic["validators"]] if ic["validators"] else None,
                          severity_threshold=ic["threshold"], inflammation_decay_minutes=ic["decay"],
-                         on_inflammation=lambda r: inflamed.append(int(r.level)), silent=True)
+                         on_inflammation=lambda r: inflamed.append(int(r.level)), silent=quiet())
     im = InnateModel(ic)
     k.key = [cfg, plan["ops"]]
 
@@ -882,7 +882,7 @@ def _run_threads(plan, k):
     sched = Sched(k, cfg.get("strategy"), switches=plan.get("switches"),
                   rng=derive(plan.get("_seedpath", "replay"), "sched"), scope=SRC, max_steps=40_000)
     m = Membrane(signatures=[ThreatSignature(CUSTOM[i][0], ML(l), f"custom {i}", CUSTOM[i][1]) for i, l in cfg["custom"]] or None,
-                 threshold=ML(cfg["threshold"]), rate_limit=rate, silent=True)
+                 threshold=ML(cfg["threshold"]), rate_limit=rate, silent=quiet())
     nb = len(Membrane.INNATE_SIGNATURES)
     m.signatures[:] = m.signatures[:KEEP_BUILTINS] + m.signatures[nb:]
     for name, v in vars(m).items():
